@@ -46,6 +46,9 @@ ERRS = {
     "flowref-unknown-member": "start vhelper2 1 as $fr\n{ind}match $fr.Foo()",
     "actionref-unknown-member": "start OutXAction(x=1) as $ar\n{ind}match $ar.Foo()",
     "send-flowref-unimplemented-member": "start vhelper2 1 as $fr\n{ind}send $fr.Resumed()",
+    # errors raised while the START of another flow is processed (not while a statement of the victim is slid)
+    "start-flow-too-many-args": "start vhelper3 1",
+    "start-flow-bad-default": "start vdefault",
     # the faulty element belongs to a compound statement that is the FIRST statement of its flow (nothing before it in that flow)
     "callee-leading-if-cond": 'await vcallee cond "12"',
     "callee-leading-if-body": "await vcallee body 1",
@@ -132,6 +135,10 @@ flow vcallee when $value
 @loop("v")
 flow vhelper3
   $q = 1
+
+@loop("v")
+flow vdefault $p=1/0
+  match Never()
 
 @loop("v")
 flow victim
